@@ -26,7 +26,7 @@ rm -f $WT/$place/zz_seed_demo_test.go
 OUT=/tmp/wt/seedout.$$; mkdir -p $OUT
 for id in "$@"; do
   echo "== check $id on the changed tree:"
-  VERIF_REPO=$WT VERIF_OUT=$OUT timeout 1200 ./check.sh $id --tier ${TIER:-quick} 2>&1 | grep -v "^  \(sched\|race\|findings\|render\|scale\|gf\|poly\|bitlist\)" | cut -c1-260 | head -${LINES_OUT:-12}
+  VERIF_REPO=$WT VERIF_OUT=$OUT timeout 1200 ./check.sh $id --tier ${TIER:-quick} 2>&1 | grep -v "^  \(sched\|race\|findings\|render\|scale\|gf\|poly\|bitlist\)" | cut -c1-260 | sed -n 1,${LINES_OUT}p
   echo "   exit=${PIPESTATUS[0]}"
 done
 rm -rf $OUT
